@@ -335,7 +335,17 @@ pub fn judge_bytes(bytes: &[u8], extra_ts: &[i64], resolve: bool, cx: &mut Cx) -
     }
     if resolve {
         cx.nt("through_Offset::Local.resolve()");
-        for t in [0i64, 1_700_000_000, 4_102_444_800] {
+        // the clock takes the same instants as the direct look-ups: year ends and month ends
+        // included (the route through Offset::Local may ask the file further questions, such as
+        // when the current offset ends)
+        let mut nows: Vec<i64> = vec![0i64, 1_700_000_000, 4_102_444_800];
+        for y in [2023i64, 2024, 2025, 2000] {
+            for (m, d, s) in [(12, 31, 43_200), (12, 31, 86_399), (1, 1, 0), (1, 1, 43_200), (12, 30, 43_200), (1, 2, 43_200), (12, 24, 0), (1, 8, 0), (3, 1, 0), (6, 15, 43_200)] {
+                nows.push((cal::days_from_ymd(y, m, d) - cal::DAYS_TO_1970) * 86_400 + s);
+            }
+        }
+        nows.extend(extra_ts.iter().copied().filter(|t| (RANGE_LO..=RANGE_HI).contains(t)).take(12));
+        for t in nows {
             let r = catch(|| {
                 astrolabe::verif::set_localtime(Some(Ok(bytes.to_vec())));
                 astrolabe::verif::set_now(Some(DateTime::from_timestamp(t)));
@@ -397,7 +407,7 @@ impl Prop for Hostile {
             ts.push(u.int_in_range(RANGE_LO..=RANGE_HI)?);
             ts.push(u.int_in_range(c18::TS_MIN..=c18::TS_MAX)?);
         }
-        Ok(Case { base, muts, ts, resolve: u.int_in_range(0..=9u8)? == 0 })
+        Ok(Case { base, muts, ts, resolve: u.int_in_range(0..=9u8)? <= 1 })
     }
     fn check(c: &Case, cx: &mut Cx) -> Verdict {
         if c.muts.len() > 16 || c.ts.len() > 2000 {
